@@ -17,7 +17,7 @@ theorem visitAttrPath_top (s : VState) (top : Value) (rest : List Value) (hs : s
     visitAttrPath s (k :: ks) =
       match denoteV top (k :: ks) with
       | .ok v => .ok { s with leftOp := v, stack := [] }
-      | .error p => .error ⟨p, s.calls⟩ := by
+      | .error p => .error ⟨p, s.calls, s.debugErr⟩ := by
   induction ks generalizing s top rest k with
   | nil =>
     cases top <;> simp [visitAttrPath, denoteV, hs]
@@ -33,7 +33,7 @@ theorem visitAttrPath_spec (s : VState) (hs : s.stack = []) (path : List String)
     visitAttrPath s path =
       match denote s.item path with
       | .ok v => .ok { s with leftOp := v, stack := [] }
-      | .error p => .error ⟨p, s.calls⟩ := by
+      | .error p => .error ⟨p, s.calls, s.debugErr⟩ := by
   match path with
   | [] => simp [visitAttrPath, denote]
   | [k] => simp [visitAttrPath, denote, denoteV, hs]
@@ -200,7 +200,7 @@ def orElseDbg (d : Option Dbg) (old : Option Dbg) : Option Dbg :=
 /-- what visiting from state `s` must return when the (sub-)rule's outcome is `o` -/
 def Post (s : VState) (o : Out) (r : VM (Bool × VState)) : Prop :=
   match o.res with
-  | .panic p => r = .error ⟨p, s.calls ++ o.calls⟩
+  | .panic p => r = .error ⟨p, s.calls ++ o.calls, orElseDbg o.dbg s.debugErr⟩
   | .fail e => ∃ b s', r = .ok (b, s') ∧ s'.err = some e ∧ s'.debugErr = orElseDbg o.dbg s.debugErr ∧
       s'.calls = s.calls ++ o.calls
   | .verdict b => ∃ s', r = .ok (b, s') ∧ Clean s' ∧ s'.item = s.item ∧
@@ -211,7 +211,7 @@ theorem visitPresent_spec (lower : Bytes → Bytes) (s : VState) (hc : Clean s) 
   have h1 := visitAttrPath_spec s hc.stack path
   simp only [visitPresent, leafOut, h1]
   cases hd : denote s.item path with
-  | error p => simp [Post]
+  | error p => simp [Post, orElseDbg]
   | ok v =>
     simp only [Post]
     exact ⟨_, rfl, ⟨hc.err, rfl, hc.rightOp⟩, rfl, rfl, by simp⟩
@@ -221,7 +221,7 @@ theorem visitCompare_spec (lower : Bytes → Bytes) (s : VState) (hc : Clean s) 
   have h1 := visitAttrPath_spec s hc.stack path
   simp only [visitCompare, leafOut, h1]
   cases hd : denote s.item path with
-  | error p => simp [Post]
+  | error p => simp [Post, orElseDbg]
   | ok v =>
     simp only []
     have h2 := visitLit_spec { s with leftOp := v, stack := [] } hc.rightOp lit
@@ -241,7 +241,7 @@ theorem visitCompare_spec (lower : Bytes → Bytes) (s : VState) (hc : Clean s) 
       | some op =>
         simp only []
         cases ha : apply lower kind op v r with
-        | panic c => simp [Post]
+        | panic c => simp [Post, orElseDbg]
         | ok b c =>
           simp only [Post]
           exact ⟨_, rfl, ⟨rfl, rfl, rfl⟩, rfl, by simp [orElseDbg], rfl⟩
@@ -310,7 +310,8 @@ theorem visit_spec (lower : Bytes → Bytes) (t : Tree) :
         cases hrr : (evalOut lower s.item r).res with
         | panic p =>
           simp only [Post, hrr, Out.seq] at hr2 ⊢
-          simp [hr2, h5, List.append_assoc]
+          simp [hr2, h5, h4, List.append_assoc]
+          cases (evalOut lower s.item r).dbg <;> cases (evalOut lower s.item l).dbg <;> simp [orElseDbg]
         | fail e =>
           simp only [Post, hrr, Out.seq] at hr2 ⊢
           obtain ⟨b, s', g1, g2, g3, g4⟩ := hr2
@@ -344,7 +345,8 @@ theorem processTree_eq (lower : Bytes → Bytes) (t : Tree) (item : List (Bytes 
   cases hr : (evalOut lower item t).res with
   | panic p =>
     simp only [Post, hr] at this
-    simp [VState.init, this]
+    simp [VState.init, this, orElseDbg]
+    cases (evalOut lower item t).dbg <;> rfl
   | fail e =>
     simp only [Post, hr] at this
     obtain ⟨b, s', h1, h2, h3, h4⟩ := this
